@@ -166,13 +166,13 @@ func exitChecks() int { return verif_ghost_int("exitChecks") }
 // With close-on-context-done, a tail call is preceded by an exit code check (a cycle of tail calls is as
 // unbounded as a loop).
 //@ case return_call (c *Compiler) lowerCurrentOpcode()
-//@   requires c.ssaBuilder != nil && c.loweringState.pc >= 0 && c.loweringState.pc < len(c.wasmFunctionBody) && c.wasmFunctionBody[c.loweringState.pc] == wasm.OpcodeTailCallReturnCall
+//@   requires c.ssaBuilder != nil && c.loweringState.pc >= 0 && c.loweringState.pc < len(c.wasmFunctionBody) && c.wasmFunctionBody[c.loweringState.pc] == wasm.OpcodeTailCallReturnCall && c.loweringState.pc < 1<<39 && c.loweringState.pc+1 < len(c.wasmFunctionBody) && c.wasmFunctionBody[c.loweringState.pc+1] < 0x80
 //@   requires c.ensureTermination && !c.loweringState.unreachable && exitChecks() >= 0 && exitChecks() < 1<<40
 //@   ensures[exit-code-check-before-the-tail-call] exitChecks() == old(exitChecks()) + 1
 //@   nosafety keep-pre
 
 //@ case return_call_indirect (c *Compiler) lowerCurrentOpcode()
-//@   requires c.ssaBuilder != nil && c.loweringState.pc >= 0 && c.loweringState.pc < len(c.wasmFunctionBody) && c.wasmFunctionBody[c.loweringState.pc] == wasm.OpcodeTailCallReturnCallIndirect
+//@   requires c.ssaBuilder != nil && c.loweringState.pc >= 0 && c.loweringState.pc < len(c.wasmFunctionBody) && c.wasmFunctionBody[c.loweringState.pc] == wasm.OpcodeTailCallReturnCallIndirect && c.loweringState.pc < 1<<39 && c.loweringState.pc+2 < len(c.wasmFunctionBody) && c.wasmFunctionBody[c.loweringState.pc+1] < 0x80 && c.wasmFunctionBody[c.loweringState.pc+2] < 0x80
 //@   requires c.ensureTermination && !c.loweringState.unreachable && exitChecks() >= 0 && exitChecks() < 1<<40
 //@   ensures[exit-code-check-before-the-tail-call] exitChecks() == old(exitChecks()) + 1
 //@   nosafety keep-pre
@@ -242,42 +242,42 @@ func miscOpAt(c *Compiler) wasm.OpcodeMisc {
 //@   modifies nothing
 
 //@ case bulk:memory.copy (c *Compiler) lowerCurrentOpcode()
-//@   requires c.ssaBuilder != nil && c.loweringState.pc >= 0 && c.loweringState.pc+1 < len(c.wasmFunctionBody) && c.wasmFunctionBody[c.loweringState.pc] == wasm.OpcodeMiscPrefix && miscOpAt(c) == wasm.OpcodeMiscMemoryCopy
+//@   requires c.ssaBuilder != nil && c.loweringState.pc >= 0 && c.loweringState.pc+1 < len(c.wasmFunctionBody) && c.wasmFunctionBody[c.loweringState.pc] == wasm.OpcodeMiscPrefix && miscOpAt(c) == wasm.OpcodeMiscMemoryCopy && c.loweringState.pc < 1<<39 && c.loweringState.pc+2 < len(c.wasmFunctionBody)
 //@   requires !c.loweringState.unreachable && len(c.loweringState.values) >= 3 && oobChecks() >= 0 && oobChecks() < 1<<40
 //@   ensures[checks-both-regions] oobChecks() == old(oobChecks())+2
 //@   nosafety keep-pre
 //@   decide-branches
 
 //@ case bulk:memory.fill (c *Compiler) lowerCurrentOpcode()
-//@   requires c.ssaBuilder != nil && c.loweringState.pc >= 0 && c.loweringState.pc+1 < len(c.wasmFunctionBody) && c.wasmFunctionBody[c.loweringState.pc] == wasm.OpcodeMiscPrefix && miscOpAt(c) == wasm.OpcodeMiscMemoryFill
+//@   requires c.ssaBuilder != nil && c.loweringState.pc >= 0 && c.loweringState.pc+1 < len(c.wasmFunctionBody) && c.wasmFunctionBody[c.loweringState.pc] == wasm.OpcodeMiscPrefix && miscOpAt(c) == wasm.OpcodeMiscMemoryFill && c.loweringState.pc < 1<<39 && c.loweringState.pc+2 < len(c.wasmFunctionBody)
 //@   requires !c.loweringState.unreachable && len(c.loweringState.values) >= 3 && oobChecks() >= 0 && oobChecks() < 1<<40
 //@   ensures[checks-the-region] oobChecks() == old(oobChecks())+1
 //@   nosafety keep-pre
 //@   decide-branches
 
 //@ case bulk:memory.init (c *Compiler) lowerCurrentOpcode()
-//@   requires c.ssaBuilder != nil && c.loweringState.pc >= 0 && c.loweringState.pc+1 < len(c.wasmFunctionBody) && c.wasmFunctionBody[c.loweringState.pc] == wasm.OpcodeMiscPrefix && miscOpAt(c) == wasm.OpcodeMiscMemoryInit
+//@   requires c.ssaBuilder != nil && c.loweringState.pc >= 0 && c.loweringState.pc+1 < len(c.wasmFunctionBody) && c.wasmFunctionBody[c.loweringState.pc] == wasm.OpcodeMiscPrefix && miscOpAt(c) == wasm.OpcodeMiscMemoryInit && c.loweringState.pc < 1<<39 && c.loweringState.pc+3 < len(c.wasmFunctionBody) && c.wasmFunctionBody[c.loweringState.pc+2] < 0x80
 //@   requires !c.loweringState.unreachable && len(c.loweringState.values) >= 3 && oobChecks() >= 0 && oobChecks() < 1<<40
 //@   ensures[checks-both-regions] oobChecks() == old(oobChecks())+2
 //@   nosafety keep-pre
 //@   decide-branches
 
 //@ case bulk:table.copy (c *Compiler) lowerCurrentOpcode()
-//@   requires c.ssaBuilder != nil && c.loweringState.pc >= 0 && c.loweringState.pc+1 < len(c.wasmFunctionBody) && c.wasmFunctionBody[c.loweringState.pc] == wasm.OpcodeMiscPrefix && miscOpAt(c) == wasm.OpcodeMiscTableCopy
+//@   requires c.ssaBuilder != nil && c.loweringState.pc >= 0 && c.loweringState.pc+1 < len(c.wasmFunctionBody) && c.wasmFunctionBody[c.loweringState.pc] == wasm.OpcodeMiscPrefix && miscOpAt(c) == wasm.OpcodeMiscTableCopy && c.loweringState.pc < 1<<39 && c.loweringState.pc+4 < len(c.wasmFunctionBody) && c.wasmFunctionBody[c.loweringState.pc+2] < 0x80 && c.wasmFunctionBody[c.loweringState.pc+3] < 0x80
 //@   requires !c.loweringState.unreachable && len(c.loweringState.values) >= 3 && oobChecks() >= 0 && oobChecks() < 1<<40
 //@   ensures[checks-both-regions] oobChecks() == old(oobChecks())+2
 //@   nosafety keep-pre
 //@   decide-branches
 
 //@ case bulk:table.fill (c *Compiler) lowerCurrentOpcode()
-//@   requires c.ssaBuilder != nil && c.loweringState.pc >= 0 && c.loweringState.pc+1 < len(c.wasmFunctionBody) && c.wasmFunctionBody[c.loweringState.pc] == wasm.OpcodeMiscPrefix && miscOpAt(c) == wasm.OpcodeMiscTableFill
+//@   requires c.ssaBuilder != nil && c.loweringState.pc >= 0 && c.loweringState.pc+1 < len(c.wasmFunctionBody) && c.wasmFunctionBody[c.loweringState.pc] == wasm.OpcodeMiscPrefix && miscOpAt(c) == wasm.OpcodeMiscTableFill && c.loweringState.pc < 1<<39 && c.loweringState.pc+3 < len(c.wasmFunctionBody) && c.wasmFunctionBody[c.loweringState.pc+2] < 0x80
 //@   requires !c.loweringState.unreachable && len(c.loweringState.values) >= 3 && oobChecks() >= 0 && oobChecks() < 1<<40
 //@   ensures[checks-the-region] oobChecks() == old(oobChecks())+1
 //@   nosafety keep-pre
 //@   decide-branches
 
 //@ case bulk:table.init (c *Compiler) lowerCurrentOpcode()
-//@   requires c.ssaBuilder != nil && c.loweringState.pc >= 0 && c.loweringState.pc+1 < len(c.wasmFunctionBody) && c.wasmFunctionBody[c.loweringState.pc] == wasm.OpcodeMiscPrefix && miscOpAt(c) == wasm.OpcodeMiscTableInit
+//@   requires c.ssaBuilder != nil && c.loweringState.pc >= 0 && c.loweringState.pc+1 < len(c.wasmFunctionBody) && c.wasmFunctionBody[c.loweringState.pc] == wasm.OpcodeMiscPrefix && miscOpAt(c) == wasm.OpcodeMiscTableInit && c.loweringState.pc < 1<<39 && c.loweringState.pc+4 < len(c.wasmFunctionBody) && c.wasmFunctionBody[c.loweringState.pc+2] < 0x80 && c.wasmFunctionBody[c.loweringState.pc+3] < 0x80
 //@   requires !c.loweringState.unreachable && len(c.loweringState.values) >= 3 && oobChecks() >= 0 && oobChecks() < 1<<40
 //@   ensures[checks-both-regions] oobChecks() == old(oobChecks())+2
 //@   nosafety keep-pre
